@@ -58,18 +58,24 @@ func C16(c *Ctx) int {
 	ReadNDJSON(behFile, func(line []byte) error {
 		var b struct {
 			Steps []drive.StoreStep `json:"steps"`
+			Mode  string            `json:"mode"`
 		}
 		if err := json.Unmarshal(line, &b); err != nil {
 			return err
 		}
 		nb++
-		if c.Quick() && nb%4 != int(c.Seed)%4 {
+		if c.Quick() && nb%16 != int(c.Seed)%16 {
 			return nil
 		}
-		job.Values = append(job.Values, drive.ValueScenario{Type: "store", Steps: b.Steps, Seed: c.Seed + int64(nb)})
+		job.Values = append(job.Values, drive.ValueScenario{Type: "store", Steps: b.Steps, Mode: b.Mode, Seed: c.Seed + int64(nb)})
 		desc = append(desc, fmt.Sprintf("store behaviour %d", nb))
 		return nil
 	})
+	// isolation between the member processes of a process set
+	for k := 0; k < 3; k++ {
+		job.Values = append(job.Values, drive.ValueScenario{Type: "set"})
+		desc = append(desc, "process-set isolation")
+	}
 	for range job.Values {
 		job.Schedules = append(job.Schedules, drive.Schedule{})
 	}
